@@ -313,10 +313,13 @@ def program(op, rep_ty, member, recv, args, params, result):
         if result == "null":
             body.append(f"{expr};")
         elif result == "any":
-            if op != "index":
-                return None      # `any` results need a cast chosen per value (C12); direct route only
-            body.append(f"println({expr} as int);") if False else None
-            return None
+            if op != "index" or recv[0] not in ("obj", "anyobj"):
+                return None      # `any` results need a cast chosen per value (C12): direct route only
+            held = dict(recv[1]).get(args[0][1])
+            cast = ty_src(guess_ty(held)) if held is not None and held[0] != "none" else "int"
+            if cast is None:
+                return None
+            body.append(f"println({expr} as {cast});")
         elif contains_any(result):
             body.append(f"println({expr});")
         else:
